@@ -382,6 +382,13 @@ func (t *Task) executeWithLocking() {
 		t.lock.Unlock()
 	}()
 
+	// The module may have been stopped since runWithLocking checked it. The
+	// task is accounted for by now, so a stop waits for it: check again and
+	// do not start working for a module that is not online anymore.
+	if !t.module.Online() {
+		return
+	}
+
 	// run
 	err := t.taskFn(t.ctx, t)
 	switch {
